@@ -12,7 +12,7 @@ Configuration (ignore, unsafe, qs) is read from the real instances of yarl/_quot
 """
 from __future__ import annotations
 
-from .spec_quote import code_at, hexch, hexval
+from .spec_quote import code_at, hexch, hexval, unit_is_input  # noqa: F401
 
 INSTANCE_CFG = {}      # id(instance) -> (ignore, unsafe, qs), filled by the registry from the real objects
 INSTANCE_NAME = {}
